@@ -201,6 +201,26 @@ func pathBoundNonEmpty(m *dynamicpb.Message, md *Method, rng *rand.Rand) {
 	}
 }
 
+// distinctPathValues gives the i-th variable of the template (URL order) a value that names its position:
+// strings "p<i>-<salt>", integers 11*(i+1)+salt, booleans alternate.
+func distinctPathValues(m *dynamicpb.Message, md *Method, salt int) {
+	for i, pv := range rePathVar.FindAllStringSubmatch(md.Path, -1) {
+		fd := m.Descriptor().Fields().ByName(protoreflect.Name(pv[1]))
+		if fd == nil || fd.IsList() || fd.IsMap() {
+			continue
+		}
+		switch fd.Kind() {
+		case protoreflect.StringKind:
+			m.Set(fd, protoreflect.ValueOfString(fmt.Sprintf("p%d-%d", i, salt)))
+		case protoreflect.BoolKind:
+			m.Set(fd, protoreflect.ValueOfBool((i+salt)%2 == 0))
+		case protoreflect.FloatKind, protoreflect.DoubleKind, protoreflect.BytesKind, protoreflect.EnumKind, protoreflect.MessageKind, protoreflect.GroupKind:
+		default:
+			SetField(m, pv[1], int64(11*(i+1)+salt))
+		}
+	}
+}
+
 // bodylessClear: on GET/DELETE nothing but URL-bound fields can travel; the catalogue binds them all.
 
 func CheckC01(run *Run) {
@@ -215,6 +235,20 @@ func CheckC01(run *Run) {
 	}
 	reqs = append(reqs, RandomRouteRequests(rng, nRandom)...)
 	reqs = append(reqs, RandomSchemas(rng, nRandom, false)...)
+	// path variables in every permutation relative to the declaration order; body verbs whose request
+	// leaves nothing / one field / only query fields for the body
+	nOrd, nBody := 2, 2
+	if run.Tier == "thorough" {
+		nOrd, nBody = 40, 40
+	}
+	reqs = append(reqs, PathOrderRequests()...)
+	if bs := BodyShapeRequests(); run.Tier == "thorough" {
+		reqs = append(reqs, bs...)
+	} else {
+		reqs = append(reqs, bs[0]) // quick: the service with a base path holds every shape x verb
+	}
+	reqs = append(reqs, RandomPathOrderRequests(rand.New(rand.NewSource(run.Seed+111)), nOrd)...)
+	reqs = append(reqs, RandomBodyShapeRequests(rand.New(rand.NewSource(run.Seed+121)), nBody)...)
 	// the feature packages: boundary values through the emitted JSON codecs and the transport
 	featIDs := map[string]bool{}
 	for _, r := range CallFeatureRequests() {
@@ -266,6 +300,32 @@ func CheckC01(run *Run) {
 			}
 		}
 	}
+	// path-order family: every path variable gets a value that is distinct from the others' and tells its
+	// position (a mix-up between variables cannot cancel out), under JSON and binary transport; the
+	// other fields stay default / random
+	for i, r := range reqs {
+		if !hasTag(r, "path-order") || !s.InRunner[r.ID] {
+			continue
+		}
+		g := s.Gens[i]
+		for _, f := range r.Files {
+			for _, svc := range f.Services {
+				for _, md := range svc.Methods {
+					in := g.Built.MessageDesc(md.In)
+					out := g.Built.MessageDesc(md.Out)
+					for k := 0; k < 2; k++ {
+						rm := dynamicpb.NewMessage(in)
+						if k == 1 {
+							rm = vg.Random(in, 0.8)
+						}
+						distinctPathValues(rm, md, k)
+						cases = append(cases, &callCase{req: r, g: g, svc: svc, md: md, ct: k, reqMsg: rm, resp: vg.Random(out, 0.8), family: "path-order"})
+					}
+				}
+			}
+		}
+	}
+
 	// byte sweep: every byte 0x01..0x7f and multi-byte UTF-8 representatives as a string path value
 	// and as a string query value (rtkinds GetK0 has string pv and qv).
 	for i, r := range reqs {
